@@ -1,5 +1,6 @@
 /- helper lemmas (BodyRead): body readers deliver exactly the framed body -/
 import TinyHttpModel.WireSpec
+import TinyHttpModel.Lemmas.Loop
 namespace TH
 
 theorem take_isEmpty_false (B : Bytes) (n : Nat) (hB : B ≠ []) (hn : 1 ≤ n) : (B.take n).isEmpty = false := by
@@ -501,24 +502,29 @@ end Chunked
 
 /-! ## `handle`: the stream position after a request was handled -/
 
-/-- the read phase of `handle`. -/
+/-- the read phase of `handle` (after the optional empty-buffer read). -/
 def readPhase (a : Action) (body : Body) (bs : Bytes) (fin : EndState) : Bytes × Option ReadOut × Body × Bytes :=
   if a.asReaderCalls > 0 && a.readTotal > 0 then
     Body.readUpTo (a.readTotal + 1) body (max a.bufSize 1) a.readTotal bs fin
   else ([], none, body, bs)
 
-theorem handle_offset (s : St) (h : Head) (fr : Framing) (last : Bool) (a : Action) (body : Body)
-    (bs after : Bytes) (fin : EndState)
-    (hnp : (readPhase a body bs fin).2.1 ≠ some .pending)
-    (hdr : Body.drain ((readPhase a body bs fin).2.2.2.length + 2) (readPhase a body bs fin).2.2.1
-      (readPhase a body bs fin).2.2.2 fin = some after) :
+theorem readPhase_eq_handleRead0 (a : Action) (body : Body) (bs : Bytes) (fin : EndState) :
+    readPhase a body bs fin = handleRead0 a body bs fin := rfl
+
+/-- `handle`'s resulting stream position, from the outcome `(body', bs')` of the optional
+    empty-buffer read (`handleZR`) and the read phase run from there. -/
+theorem handle_offset (s : St) (h : Head) (fr : Framing) (last : Bool) (a : Action) (body body' : Body)
+    (bs bs' after : Bytes) (fin : EndState)
+    (hzr : handleZR a body bs fin = some (body', bs'))
+    (hnp : (readPhase a body' bs' fin).2.1 ≠ some .pending)
+    (hdr : Body.drain ((readPhase a body' bs' fin).2.2.2.length + 2) (readPhase a body' bs' fin).2.2.1
+      (readPhase a body' bs' fin).2.2.2 fin = some after) :
     (handle s h fr last a body bs fin).2.1 = after ∧ (handle s h fr last a body bs fin).2.2 = false := by
-  unfold handle
-  unfold readPhase at hnp hdr
-  simp only [] at hnp hdr ⊢
-  generalize (if (decide (a.asReaderCalls > 0) && decide (a.readTotal > 0)) = true then
-      Body.readUpTo (a.readTotal + 1) body (max a.bufSize 1) a.readTotal bs fin
-    else ([], none, body, bs)) = rp at hnp hdr ⊢
+  rw [handle_eq]
+  have hr : handleRead a body bs fin = readPhase a body' bs' fin := by
+    unfold handleRead; rw [hzr]; rfl
+  rw [hr]
+  generalize readPhase a body' bs' fin = rp at hnp hdr ⊢
   obtain ⟨got, rend, body1, bs1⟩ := rp
   simp only [] at hnp hdr ⊢
   rw [hdr]
@@ -554,11 +560,51 @@ theorem drain_cursor (fuel : Nat) (d bs : Bytes) (fin : EndState) :
     Body.drain fuel (.cursor d) bs fin = some bs := by
   cases fuel <;> simp [Body.drain]
 
-theorem handle_limited (s : St) (h : Head) (fr : Framing) (last : Bool) (a : Action)
-    (B after : Bytes) (fin : EndState) :
-    (handle s h fr last a (.limited B.length) (B ++ after) fin).2.1 = after ∧
-    (handle s h fr last a (.limited B.length) (B ++ after) fin).2.2 = false := by
-  apply handle_offset
+/-! ### the empty-buffer read (`zeroReadEffect`, `handleZR`) -/
+
+theorem zeroReadEffect_done (bs : Bytes) (fin : EndState) : zeroReadEffect .done bs fin = some (.done, bs) := rfl
+theorem zeroReadEffect_cursor (d bs : Bytes) (fin : EndState) :
+    zeroReadEffect (.cursor d) bs fin = some (.cursor d, bs) := rfl
+theorem zeroReadEffect_raw (bs : Bytes) (fin : EndState) : zeroReadEffect .raw bs fin = some (.raw, bs) := rfl
+theorem zeroReadEffect_failed (bs : Bytes) (fin : EndState) : zeroReadEffect .failed bs fin = some (.failed, bs) := rfl
+
+/-- a streamed Content-Length body that is entirely available: the empty-buffer read discards it. -/
+theorem zeroReadEffect_limited (B after : Bytes) (fin : EndState) :
+    zeroReadEffect (.limited B.length) (B ++ after) fin = some (.done, after) := by
+  unfold zeroReadEffect
+  simp only []
+  rw [drain_limited _ _ _ fin (by omega) (by simp)]
+  simp
+
+/-- a well-formed chunked body: the empty-buffer read discards it up to and including the terminal chunk. -/
+theorem zeroReadEffect_chunked (cs : List Spec.SentChunk) (zero after : Bytes) (fin : EndState)
+    (hcs : ∀ c ∈ cs, Spec.wfChunk c = true) (hz : ZeroOk zero) :
+    zeroReadEffect (.chunked none) (Spec.renderChunked cs zero ++ after) fin = some (.done, after) := by
+  unfold zeroReadEffect
+  simp only []
+  rw [chunked_drain zero after hz fin _ none _ _ (ChunkPos.line cs hcs) (by omega)]
+
+/-- without an empty-buffer read, or on a reader that is not fused, `handleZR` is the identity. -/
+theorem handleZR_id (a : Action) (body : Body) (bs : Bytes) (fin : EndState)
+    (hb : zeroReadEffect body bs fin = some (body, bs)) : handleZR a body bs fin = some (body, bs) := by
+  unfold handleZR; split
+  · exact hb
+  · rfl
+
+theorem handleZR_cases (a : Action) (body : Body) (bs : Bytes) (fin : EndState) :
+    handleZR a body bs fin = some (body, bs) ∨ handleZR a body bs fin = zeroReadEffect body bs fin := by
+  unfold handleZR; split
+  · exact Or.inr rfl
+  · exact Or.inl rfl
+
+/-! ### the read phase followed by the discard, per reader -/
+
+theorem phase_limited (a : Action) (B after : Bytes) (fin : EndState) :
+    (readPhase a (.limited B.length) (B ++ after) fin).2.1 ≠ some .pending ∧
+    Body.drain ((readPhase a (.limited B.length) (B ++ after) fin).2.2.2.length + 2)
+      (readPhase a (.limited B.length) (B ++ after) fin).2.2.1
+      (readPhase a (.limited B.length) (B ++ after) fin).2.2.2 fin = some after := by
+  refine ⟨?_, ?_⟩
   · rcases readPhase_cases a (.limited B.length) (B ++ after) fin with e | e
     · rw [e]; simp
     · rw [e, limited_readUpTo _ B after _ _ fin (by omega) (by omega)]
@@ -578,11 +624,12 @@ theorem handle_limited (s : St) (h : Head) (fr : Framing) (last : Bool) (a : Act
       · simp only []
         rw [drain_done]
 
-theorem handle_cursor (s : St) (h : Head) (fr : Framing) (last : Bool) (a : Action)
-    (B after : Bytes) (fin : EndState) :
-    (handle s h fr last a (.cursor B) after fin).2.1 = after ∧
-    (handle s h fr last a (.cursor B) after fin).2.2 = false := by
-  apply handle_offset
+theorem phase_cursor (a : Action) (B after : Bytes) (fin : EndState) :
+    (readPhase a (.cursor B) after fin).2.1 ≠ some .pending ∧
+    Body.drain ((readPhase a (.cursor B) after fin).2.2.2.length + 2)
+      (readPhase a (.cursor B) after fin).2.2.1
+      (readPhase a (.cursor B) after fin).2.2.2 fin = some after := by
+  refine ⟨?_, ?_⟩
   · rcases readPhase_cases a (.cursor B) after fin with e | e
     · rw [e]; simp
     · rw [e, cursor_readUpTo _ B after _ _ fin (by omega) (by omega)]
@@ -598,10 +645,11 @@ theorem handle_cursor (s : St) (h : Head) (fr : Framing) (last : Bool) (a : Acti
       · simp only []
         rw [drain_cursor]
 
-theorem handle_done (s : St) (h : Head) (fr : Framing) (last : Bool) (a : Action)
-    (after : Bytes) (fin : EndState) :
-    (handle s h fr last a .done after fin).2.1 = after ∧
-    (handle s h fr last a .done after fin).2.2 = false := by
+theorem phase_done (a : Action) (after : Bytes) (fin : EndState) :
+    (readPhase a .done after fin).2.1 ≠ some .pending ∧
+    Body.drain ((readPhase a .done after fin).2.2.2.length + 2)
+      (readPhase a .done after fin).2.2.1
+      (readPhase a .done after fin).2.2.2 fin = some after := by
   have key : readPhase a .done after fin = ([], none, .done, after) ∨
       readPhase a .done after fin = ([], some .eof, .done, after) := by
     unfold readPhase
@@ -611,15 +659,16 @@ theorem handle_done (s : St) (h : Head) (fr : Framing) (last : Bool) (a : Action
       right
       exact done_readUpTo after _ _ _ fin hc.2 (by omega)
     · exact Or.inl rfl
-  apply handle_offset
+  refine ⟨?_, ?_⟩
   · rcases key with e | e <;> rw [e] <;> simp
   · rcases key with e | e <;> rw [e] <;> simp only [] <;> rw [drain_done]
 
-theorem handle_chunked (s : St) (h : Head) (fr : Framing) (last : Bool) (a : Action)
-    (cs : List Spec.SentChunk) (zero after : Bytes) (fin : EndState)
+theorem phase_chunked (a : Action) (cs : List Spec.SentChunk) (zero after : Bytes) (fin : EndState)
     (hcs : ∀ c ∈ cs, Spec.wfChunk c = true) (hz : ZeroOk zero) :
-    (handle s h fr last a (.chunked none) (Spec.renderChunked cs zero ++ after) fin).2.1 = after ∧
-    (handle s h fr last a (.chunked none) (Spec.renderChunked cs zero ++ after) fin).2.2 = false := by
+    (readPhase a (.chunked none) (Spec.renderChunked cs zero ++ after) fin).2.1 ≠ some .pending ∧
+    Body.drain ((readPhase a (.chunked none) (Spec.renderChunked cs zero ++ after) fin).2.2.2.length + 2)
+      (readPhase a (.chunked none) (Spec.renderChunked cs zero ++ after) fin).2.2.1
+      (readPhase a (.chunked none) (Spec.renderChunked cs zero ++ after) fin).2.2.2 fin = some after := by
   have hp0 := ChunkPos.line (zero := zero) (after := after) cs hcs
   have key : (∃ ic S P, ChunkPos zero after ic S P ∧
         readPhase a (.chunked none) (Spec.renderChunked cs zero ++ after) fin = (Spec.chunkPayload cs |>.take a.readTotal, none, .chunked ic, S)) ∨
@@ -635,7 +684,7 @@ theorem handle_chunked (s : St) (h : Head) (fr : Framing) (last : Bool) (a : Act
       · obtain ⟨ic', S', e', hp'⟩ := i2 hle
         exact Or.inl ⟨ic', S', _, hp', by rw [e, e']⟩
       · exact Or.inr (Or.inl (by rw [e, i3 (by omega)]))
-  apply handle_offset
+  refine ⟨?_, ?_⟩
   · rcases key with ⟨ic, S, P, _, e⟩ | e | e <;> rw [e] <;> simp
   · rcases key with ⟨ic, S, P, hp, e⟩ | e | e
     · rw [e]
@@ -647,5 +696,42 @@ theorem handle_chunked (s : St) (h : Head) (fr : Framing) (last : Bool) (a : Act
     · rw [e]
       simp only []
       exact chunked_drain zero after hz fin _ none _ _ hp0 (by omega)
+
+/-! ### `handle` per reader -/
+
+theorem handle_done (s : St) (h : Head) (fr : Framing) (last : Bool) (a : Action)
+    (after : Bytes) (fin : EndState) :
+    (handle s h fr last a .done after fin).2.1 = after ∧
+    (handle s h fr last a .done after fin).2.2 = false :=
+  handle_offset s h fr last a .done .done after after after fin (handleZR_id a _ _ fin rfl)
+    (phase_done a after fin).1 (phase_done a after fin).2
+
+theorem handle_cursor (s : St) (h : Head) (fr : Framing) (last : Bool) (a : Action)
+    (B after : Bytes) (fin : EndState) :
+    (handle s h fr last a (.cursor B) after fin).2.1 = after ∧
+    (handle s h fr last a (.cursor B) after fin).2.2 = false :=
+  handle_offset s h fr last a (.cursor B) (.cursor B) after after after fin (handleZR_id a _ _ fin rfl)
+    (phase_cursor a B after fin).1 (phase_cursor a B after fin).2
+
+theorem handle_limited (s : St) (h : Head) (fr : Framing) (last : Bool) (a : Action)
+    (B after : Bytes) (fin : EndState) :
+    (handle s h fr last a (.limited B.length) (B ++ after) fin).2.1 = after ∧
+    (handle s h fr last a (.limited B.length) (B ++ after) fin).2.2 = false := by
+  rcases handleZR_cases a (.limited B.length) (B ++ after) fin with e | e
+  · exact handle_offset s h fr last a _ _ _ _ after fin e (phase_limited a B after fin).1
+      (phase_limited a B after fin).2
+  · rw [zeroReadEffect_limited] at e
+    exact handle_offset s h fr last a _ _ _ _ after fin e (phase_done a after fin).1 (phase_done a after fin).2
+
+theorem handle_chunked (s : St) (h : Head) (fr : Framing) (last : Bool) (a : Action)
+    (cs : List Spec.SentChunk) (zero after : Bytes) (fin : EndState)
+    (hcs : ∀ c ∈ cs, Spec.wfChunk c = true) (hz : ZeroOk zero) :
+    (handle s h fr last a (.chunked none) (Spec.renderChunked cs zero ++ after) fin).2.1 = after ∧
+    (handle s h fr last a (.chunked none) (Spec.renderChunked cs zero ++ after) fin).2.2 = false := by
+  rcases handleZR_cases a (.chunked none) (Spec.renderChunked cs zero ++ after) fin with e | e
+  · exact handle_offset s h fr last a _ _ _ _ after fin e (phase_chunked a cs zero after fin hcs hz).1
+      (phase_chunked a cs zero after fin hcs hz).2
+  · rw [zeroReadEffect_chunked cs zero after fin hcs hz] at e
+    exact handle_offset s h fr last a _ _ _ _ after fin e (phase_done a after fin).1 (phase_done a after fin).2
 
 end TH
